@@ -319,11 +319,64 @@ def tree_files_dot(W, node, wires, post, prefix="", files=None):
     return files
 
 
+def outside_links(binpath, res, seed, n):
+    """inner step names with relative path components ("../compile", "../other.0a1b2c3d/compile"): the only link for such
+    a step lies OUTSIDE the sub-layout's dedicated directory, at the place the name points to (the parent directory, a
+    sibling directory); the dedicated directory exists and is empty.  Evidence from outside never satisfies the sub-layout."""
+    rng = common.rng_for(seed, PROP, 4242)
+    W = scen.World(binpath)
+    reqs, plans = [], []
+    for i in range(n):
+        kd, ka = rng.sample(FUNC, 2)
+        mode = rng.choice(["control", "parent_dir", "sibling_dir", "parent_dir_two_inner_steps"])
+        inner_name = {"control": "compile", "parent_dir": "../compile", "sibling_dir": "../other.0a1b2c3d/compile",
+                      "parent_dir_two_inner_steps": "../compile"}[mode]
+        inner_steps = [scen.mk_step(inner_name, 1, [W.kid(ka)], [], [["ALLOW", "*"]], [["ALLOW", "*"]])]
+        if mode == "parent_dir_two_inner_steps":
+            inner_steps.insert(0, scen.mk_step("fetch", 1, [W.kid(ka)], [], [["ALLOW", "*"]], [["ALLOW", "*"]]))
+        inner = scen.mk_layout(W, [ka], inner_steps, [])
+        top = scen.mk_layout(W, [kd], [scen.mk_step("build", 1, [W.kid(kd)], [], [["ALLOW", "*"]], [["ALLOW", "*"]])], [])
+        plans.append((mode, kd, ka, inner_name, len(reqs)))
+        reqs.append((top, ["ed0"], "new"))
+        reqs.append((inner, [kd], "new"))
+        reqs.append((pipeline.leaf_link(inner_name, 0), [ka], "new"))
+        reqs.append((pipeline.leaf_link("fetch", 0), [ka], "new"))
+    wires = scen.sign_all(binpath, reqs, nproc=1)
+    cases = []
+    for mode, kd, ka, inner_name, b in plans:
+        d = f"build.{W.pfx(kd)}"
+        files = {f"{d}.link": scen.dumps(wires[b + 1])}
+        if mode == "control":
+            files[f"{d}/compile.{W.pfx(ka)}.link"] = scen.dumps(wires[b + 2])
+        else:
+            files[f"{d}/.keep"] = "the dedicated directory exists"
+            where = "" if mode.startswith("parent_dir") else "other.0a1b2c3d/"
+            files[f"{where}compile.{W.pfx(ka)}.link"] = scen.dumps(wires[b + 2])
+            if mode == "parent_dir_two_inner_steps":
+                files[f"{d}/fetch.{W.pfx(ka)}.link"] = scen.dumps(wires[b + 3])
+        cases.append(scen.verify_case(wires[b], [[W.kid("ed0"), W.pub("ed0")]], files,
+                                      meta={"mode": "outside:" + mode, "expect": "accept" if mode == "control" else "reject"}))
+    obs = common.run_batch(binpath, cases)
+    for c, o in zip(cases, obs):
+        if scen.harness_failed(o):
+            res.inconclusive.append(f"executor failure: {str(o)[:200]}")
+            continue
+        m = c["meta"]
+        ok = o["runs"][0]["v"] == "ok"
+        res.note([c["layout"], sorted(c["files"])], True, cls=[f"mode:{m['mode']}", "accepted" if ok else "rejected"])
+        if ok and m["expect"] == "reject":
+            res.violate(f"accept:{m['mode']}", f"a sub-layout was satisfied by a link file outside its dedicated sub-directory ({m['mode']}; files {sorted(c['files'])})",
+                        c, o, "reject")
+        if not ok and m["expect"] == "accept":
+            res.inconclusive.append(f"outside-links positive control rejected: {o['runs'][0].get('e')}")
+
+
 def main(ctx):
     res = common.Result()
     n = 50 if not ctx.thorough else 2500
     for p in common.pmap(shard, [(ctx.bin, ctx.seed, s, n) for s in range(common.NPROC)]):
         res.merge(p)
+    outside_links(ctx.bin, res, ctx.seed, 60 if not ctx.thorough else 600)
     # a layout without steps: the summary is empty but still carries the requested name
     W = scen.World(ctx.bin)
     lw = scen.sign_all(ctx.bin, [(scen.mk_layout(W, [], [], []), ["ed0"], "new")])[0]
@@ -348,5 +401,5 @@ def main(ctx):
                   "mode:inner_link_missing", "mode:links_in_parent_dir", "mode:links_in_other_key_dir",
                   "mode:parent_disallows_summary_product", "mode:parent_requires_summary_product", "mode:inner_rule_fail",
                   "mode:multi_delegation:all_good", "mode:multi_delegation:dir_missing", "mode:multi_delegation:inner_link_unauth",
-                  "depth:2", "rejected"],
+                  "depth:2", "rejected", "mode:outside:control", "mode:outside:parent_dir", "mode:outside:sibling_dir"],
         min_evals=400)
